@@ -104,11 +104,13 @@ type Explorer struct {
 	okSeen    int
 	stop      bool
 	forkSites map[string]int
+	redirects map[*ssa.Function]*ssa.Function
 	cexSeen   map[string]int
 }
 
 func NewExplorer(prog *ssa.Program, hpkg *ssa.Package, entry *ssa.Function, cfg Config) *Explorer {
 	x := &Explorer{prog: prog, cfg: cfg, entry: entry, hpkg: hpkg}
+	x.redirects = buildRedirects(prog, hpkg)
 	x.cond = sync.NewCond(&x.mu)
 	x.stats.ByKind = map[string]int{}
 	x.stats.Reach = map[string]int{}
